@@ -60,7 +60,7 @@ type checkCfg struct {
 	Assumptions   []string          `json:"assumptions"`
 	BuildPkg      string            `json:"build_pkg"` // build this repo package (its in-package harness has an init hook) instead of internal/zzverif/<main>
 	TestPkg       string            `json:"test_pkg"` // build with `go test -c` in this repo package instead of a main package
-	Race          *raceCfg          `json:"race"`
+	Race          []raceCfg         `json:"race"`
 	Env           map[string]string `json:"env"`
 	GoMaxProcs    int               `json:"gomaxprocs"`
 	ExtraHarness  []string          `json:"extra_harness"` // further check dirs whose files are also injected (shared helpers)
@@ -71,8 +71,18 @@ type checkCfg struct {
 	NotExhaustive string            `json:"not_exhaustive_note"`
 }
 
+// raceCfg is one free-running `go test -race` body set: the *_test.go files of
+// checks/<id>/<dir> are overlaid into the repo package pkg (uninstrumented:
+// real goroutines, real sync, real time, loopback sockets).  Supplementary to
+// the exhaustive exploration: the cooperative scheduler's hand-offs are
+// happens-before edges, so unsynchronised accesses are invisible to it.
 type raceCfg struct {
-	Args []string `json:"args"`
+	Pkg        string `json:"pkg"`
+	Dir        string `json:"dir"`
+	Run        string `json:"run"` // -test.run expression (default VerifRace)
+	ItersQuick int    `json:"iters_quick"`
+	ItersThor  int    `json:"iters_thorough"`
+	Timeout    string `json:"timeout"`
 }
 
 func die(code int, format string, a ...any) {
@@ -425,11 +435,21 @@ func main() {
 		}
 	}
 
+	// 4b. free-running race pass (supplementary; only for whole runs)
+	var raceInfo map[string]any
+	if len(cfg.Race) > 0 && only == "" && os.Getenv("VERIF_NO_RACE") == "" {
+		rv, info := racePass(cfg, checkDir, work, tier, ov)
+		raceInfo = info
+		viols = append(viols, rv...)
+	}
+
 	// 5. known findings
 	known, fixed := loadKnown(cfg.Property)
 	exit := 0
 	sort.SliceStable(viols, func(i, j int) bool {
-		return len(viols[i]["choices"].([]any)) < len(viols[j]["choices"].([]any))
+		ci, _ := viols[i]["choices"].([]any)
+		cj, _ := viols[j]["choices"].([]any)
+		return len(ci) < len(cj)
 	})
 	seenKey := map[string]bool{}
 	nViol := 0
@@ -490,6 +510,9 @@ func main() {
 		"determinism_selfchecks":        tot.selfchk,
 		"shards":                        n,
 		"explanation":                   "stateless exploration of the real implementation: every explored trace is an implementation trace",
+	}
+	if raceInfo != nil {
+		cov["race_pass"] = raceInfo
 	}
 	if len(incomplete) > 0 {
 		if len(incomplete) > 20 {
@@ -571,4 +594,136 @@ func loadKnown(prop string) (known map[string]string, fixed []string) {
 		}
 	}
 	return
+}
+
+// racePass builds and runs the free-running -race bodies and turns every
+// distinct data-race report into a violation record.
+func racePass(cfg checkCfg, checkDir, work, tier string, instrOv map[string]string) ([]map[string]any, map[string]any) {
+	info := map[string]any{"note": "supplementary free-running pass under the Go race detector (sampling of real schedules, not part of the exhaustive claim): the same operations as the explored scenarios on real goroutines, uninstrumented"}
+	var viols []map[string]any
+	var pkgs []any
+	totalReports := 0
+	for i, rc := range cfg.Race {
+		// overlay: engines + in-package accessors + the race bodies, no instrumentation
+		ov := map[string]string{}
+		for k, v := range instrOv {
+			if strings.HasPrefix(v, filepath.Join(work, "instr")) {
+				continue
+			}
+			ov[k] = v
+		}
+		ents, err := os.ReadDir(filepath.Join(checkDir, rc.Dir))
+		if err != nil {
+			die(2, "%v", err)
+		}
+		for _, e := range ents {
+			if strings.HasSuffix(e.Name(), ".go") {
+				ov[filepath.Join(repoDir, rc.Pkg, e.Name())] = filepath.Join(checkDir, rc.Dir, e.Name())
+			}
+		}
+		ovb, _ := json.MarshalIndent(map[string]any{"Replace": ov}, "", " ")
+		ovPath := filepath.Join(work, fmt.Sprintf("overlay-race%d.json", i))
+		os.WriteFile(ovPath, ovb, 0o644)
+		bin := filepath.Join(work, fmt.Sprintf("race%d.test", i))
+		cmd := exec.Command("go", "test", "-c", "-race", "-vet=off", "-overlay", ovPath, "-tags", "verif", "-o", bin, "./"+rc.Pkg)
+		cmd.Dir = repoDir
+		cmd.Env = goEnv()
+		if out, err := cmd.CombinedOutput(); err != nil {
+			fmt.Fprintf(os.Stderr, "vcheck: race-pass build failed (machinery, not a violation):\n%s\n", out)
+			os.Exit(2)
+		}
+		iters := rc.ItersQuick
+		if tier == "thorough" {
+			iters = rc.ItersThor
+		}
+		if iters <= 0 {
+			iters = 1
+		}
+		run := rc.Run
+		if run == "" {
+			run = "VerifRace"
+		}
+		to := rc.Timeout
+		if to == "" {
+			to = "10m"
+		}
+		logBase := filepath.Join(work, fmt.Sprintf("race%d.log", i))
+		tmpDir := filepath.Join(work, fmt.Sprintf("race%d.tmp", i))
+		os.MkdirAll(tmpDir, 0o755)
+		c := exec.Command(bin, "-test.run", run, "-test.count=1", "-test.timeout", to, "-test.v")
+		c.Dir = filepath.Join(repoDir, rc.Pkg)
+		c.Env = append(os.Environ(), "GORACE=halt_on_error=0 exitcode=0 history_size=5 log_path="+logBase,
+			"VERIF_RACE_ITERS="+strconv.Itoa(iters), "VERIF_WORK="+work, "TMPDIR="+tmpDir)
+		t0 := time.Now()
+		out, runErr := c.CombinedOutput()
+		bodies := strings.Count(string(out), "=== RUN")
+		failed := strings.Count(string(out), "--- FAIL")
+		// collect reports
+		var reports []string
+		logs, _ := filepath.Glob(logBase + ".*")
+		for _, lf := range logs {
+			b, _ := os.ReadFile(lf)
+			for _, blk := range strings.Split(string(b), "==================") {
+				if strings.Contains(blk, "WARNING: DATA RACE") {
+					reports = append(reports, strings.TrimSpace(blk))
+				}
+			}
+		}
+		totalReports += len(reports)
+		pi := map[string]any{"pkg": rc.Pkg, "bodies": bodies, "iterations": iters, "race_reports": len(reports), "bodies_failed": failed, "wall_s": time.Since(t0).Seconds()}
+		if runErr != nil {
+			// a body that fails or hangs is not a verdict of this pass (the
+			// explored scenarios own behaviour); it is recorded
+			pi["run_error"] = runErr.Error()
+			pi["output_tail"] = tail(string(out), 1500)
+			if os.Getenv("VERIF_RACE_VERBOSE") != "" {
+				fmt.Fprintf(os.Stderr, "race pass %s: %v\n%s\n", rc.Pkg, runErr, tail(string(out), 4000))
+			}
+		}
+		pkgs = append(pkgs, pi)
+		seen := map[string]bool{}
+		for _, r := range reports {
+			key := cfg.Property + "/race/" + raceKey(r)
+			if seen[key] {
+				continue
+			}
+			seen[key] = true
+			viols = append(viols, map[string]any{
+				"scenario": "race-pass/" + rc.Pkg,
+				"choices":  []any{},
+				"failure":  map[string]any{"oracle": "race-free", "key": key, "msg": "data race reported by the free-running -race pass (unsynchronised access: behaviour is undefined for some schedule)\n" + firstLines(r, 40)},
+				"report":   r,
+				"replay_cmd": fmt.Sprintf("VERIF_RACE_VERBOSE=1 bin/check %s %s   # re-runs the race pass; reports are in .work/%s/race%d.log.*", cfg.Property, tier, strings.ToLower(cfg.Property), i),
+			})
+		}
+	}
+	info["packages"] = pkgs
+	info["race_reports"] = totalReports
+	return viols, info
+}
+
+// raceKey names a race by the innermost repository function of each of the two
+// accesses (order-independent).
+func raceKey(report string) string {
+	var fns []string
+	lines := strings.Split(report, "\n")
+	for i, l := range lines {
+		t := strings.TrimSpace(l)
+		if (strings.HasPrefix(t, "Write at") || strings.HasPrefix(t, "Read at") || strings.HasPrefix(t, "Previous write at") || strings.HasPrefix(t, "Previous read at") || strings.HasPrefix(t, "Atomic")) && strings.Contains(t, "by ") {
+			fn := "?"
+			for j := i + 1; j < len(lines) && strings.TrimSpace(lines[j]) != ""; j += 2 {
+				f := strings.TrimSpace(lines[j])
+				if strings.Contains(f, modPath) && !strings.Contains(strings.ToLower(f), "verif") {
+					if k := strings.LastIndex(f, "("); k > 0 {
+						f = f[:k]
+					}
+					fn = strings.TrimPrefix(f, modPath+"/")
+					break
+				}
+			}
+			fns = append(fns, fn)
+		}
+	}
+	sort.Strings(fns)
+	return strings.Join(fns, "|")
 }
